@@ -69,6 +69,7 @@ DATA_METHODS = [
     ('as_QRPO', 'as_QRPO', {}), ('as_QRPO_ec', 'as_QRPO', {'method': 'ec'}), ('residues', 'residues', {}),
     ('as_QRF', 'as_QRF', {}), ('as_QRF_cc', 'as_QRF', {'combine_conjugates': True}),
     ('recip_QRPO', 'recip_QRPO', {}), ('cf_coeffs', 'cf_coeffs', {}),
+    ('poles_pairs', 'poles_pairs', {}), ('zeros_pairs', 'zeros_pairs', {}), ('N_roots_pairs', 'N_roots_pairs', {}), ('D_roots_pairs', 'D_roots_pairs', {}),
 ]
 # execution order: timeout-prone methods last (an interrupted method taints the rest of its case)
 _LATE = ('simplify', 'simplify_terms', 'simplify_factors', 'ratden')
@@ -79,7 +80,8 @@ HEAVY_VARIANTS = ('partfrac_ec', 'as_QRPO_ec', 'as_QRF', 'mixedfrac', 'factored_
 PUBLIC = {'canonical_fc': 'canonical', 'ZPK_cc': 'ZPK', 'factored_pairs': 'factored', 'partfrac_cc': 'partfrac', 'partfrac_ec': 'partfrac',
           'recippartfrac_cc': 'recippartfrac', 'cf': 'as_continued_fraction', 'ratden': 'rationalize_denominator',
           'mtb': 'multiply_top_and_bottom', 'dtb': 'divide_top_and_bottom', 'ND': 'N/D', 'as_QRPO_ec': 'as_QRPO',
-          'as_QRF_cc': 'as_QRF', 'recip_QRPO': 'recippartfrac', 'cf_coeffs': 'continued_fraction_coeffs'}
+          'as_QRF_cc': 'as_QRF', 'recip_QRPO': 'recippartfrac', 'cf_coeffs': 'continued_fraction_coeffs',
+          'poles_pairs': 'poles(pairs=True)', 'zeros_pairs': 'zeros(pairs=True)', 'N_roots_pairs': 'roots(pairs=True)', 'D_roots_pairs': 'roots(pairs=True)'}
 
 
 def public(key):
@@ -198,6 +200,23 @@ class CaseBuilder:
             a = self.rand_frac(-3, 3, (1, 2))
             b = self.rand_frac(1, 3, (1, 2), nz=True)
             pspecs = pspecs[:max(0, len(pspecs) - 1)] + [(('cpair', a, abs(b)), 2)]
+        if opts.get('uneq_conj'):
+            # a complex root and its conjugate with DIFFERENT multiplicities (complex-coefficient polynomial);
+            # in the omega / f domains the variable is S/j, so conjugates in the variable are a+bj, -a+bj in S
+            where, k1, k2 = opts['uneq_conj']
+            a = self.rand_frac(-3, 3, (1, 2))
+            b = self.rand_frac(1, 3, (1, 2), nz=True)
+            if dom in ('s', 'z'):
+                pr_ = [(('cplx', a, abs(b)), k1), (('cplx', a, -abs(b)), k2)]
+            else:
+                a = a if a != 0 else Fraction(1)
+                pr_ = [(('cplx', a, abs(b)), k1), (('cplx', -a, abs(b)), k2)]
+            if rng.random() < 0.5:
+                pr_.reverse()
+            if where == 'p':
+                pspecs = pspecs[:1] + pr_
+            else:
+                zspecs = zspecs[:1] + pr_
         if opts.get('surd'):
             # an irreducible quadratic whose roots are NOT in Q(i): poles with square roots
             while True:
@@ -360,6 +379,11 @@ class CaseBuilder:
                 break
         dfc = rng.choice(['2', '3', '5/2', vname if all(not x.is_zero() for x in pts) else '2'])
         has_rep_conj = any(s_[0] in ('cpair', 'sympair') and k >= 2 for s_, k in pspecs)
+        cpl = {(s_[1], s_[2]): k for s_, k in pspecs if s_[0] == 'cplx'}
+        for (a_, b_), k_ in cpl.items():
+            other = (a_, -b_) if dom in ('s', 'z') else (-a_, b_)
+            if other in cpl and other != (a_, b_) and max(k_, cpl[other]) >= 2:
+                has_rep_conj = True
         tags = dict(opts)
         tags.update({'dom': dom, 'repeated_conjugate_poles': has_rep_conj,
                      'zeros_known': all(s_[0] != 'poly' for s_, k in zspecs),
@@ -397,6 +421,11 @@ def gen_cases(rng, tier):
     plan.append(('s', dict(symbolic=False, delay='num', undef=False, expanded=True, nz=1, np=1, surd=True, complex=False)))
     plan.append(('z', dict(symbolic=False, delay='none', undef=True, expanded=False, nz=2, np=1, surd=True, complex=False)))
     plan.append(('s', dict(symbolic=False, delay='none', undef=False, expanded=False, nz=0, np=0, gain=Fraction(5, 3))))
+    # conjugate roots with unequal multiplicities, both orientations, in poles and in zeros
+    for dom, where, k1, k2, ex in (('s', 'p', 2, 1, False), ('s', 'p', 1, 2, False), ('s', 'z', 3, 1, False), ('s', 'z', 1, 2, True),
+                                   ('z', 'p', 1, 3, False), ('z', 'z', 2, 1, False), ('omega', 'p', 1, 2, False), ('s', 'p', 2, 3, True)):
+        plan.append((dom, dict(symbolic=False, delay='none', undef=False, expanded=ex, nz=1, np=1, complex=False, uneq_conj=(where, k1, k2))))
+    plan.append(('s', dict(symbolic=False, delay='num', undef=True, expanded=False, nz=1, np=1, complex=False, uneq_conj=('p', 1, 2))))
     plan.append(('s', dict(symbolic=False, delay='num', undef=True, expanded=False, nz=2, np=0)))
     for i in range(n_rand):
         dom = rng.choice(['s', 's', 's', 'z', 'z', 'omega', 'f'])
@@ -417,6 +446,7 @@ def gen_cases(rng, tier):
             symgain=rng.random() < 0.15,
             gain=Fraction(rng.choice([1, 1, 2, 3, -1, -2, 5]), rng.choice([1, 1, 2, 3])),
             surd=(not symbolic) and rng.random() < 0.08,
+            uneq_conj=((rng.choice('pz'),) + rng.choice([(1, 2), (2, 1), (1, 3), (3, 1), (2, 3), (3, 2)])) if (not symbolic and rng.random() < 0.1) else None,
             repeated_cpair=(not symbolic) and rng.random() < 0.08)))
     for i, (dom, opts) in enumerate(plan):
         if tier != 'quick':
@@ -508,6 +538,28 @@ def oracle_case(c, r):
             ok, full = oracle_roots(A if key == 'poles' else B, [(G.des(p), n) for p, n in m['roots']])
             if not ok:
                 bad.append((key, 0, 'reported root is not a root with that multiplicity'))
+        if key in ('poles_pairs', 'zeros_pairs', 'N_roots_pairs', 'D_roots_pairs'):
+            # reported multiplicities (pairs count for both members) against the true ones
+            poly = A if key in ('poles_pairs', 'D_roots_pairs') else B
+            for pl_, sl_, tag in ((m['pairs'], m['singles'], 'dict'), ([p_ + [1] for p_ in m['pairs_list']], [[p_, 1] for p_ in m['singles_list']], 'list')):
+                cnt = {}
+                for a_, b_, n_ in pl_:
+                    for q_ in (G.des(a_), G.des(b_)):
+                        cnt[q_] = cnt.get(q_, 0) + n_
+                for p_, n_ in sl_:
+                    cnt[G.des(p_)] = cnt.get(G.des(p_), 0) + n_
+                okr, full = oracle_roots(poly, list(cnt.items()))
+                extra = False
+                if okr:
+                    # not under-reported either: dividing all of them out leaves no further copy of a reported root
+                    cur = trim(poly)
+                    for p_, n_ in cnt.items():
+                        for _ in range(n_):
+                            cur, _r = polydiv_linear(cur, p_)
+                    extra = any(peval(cur, p_).is_zero() for p_ in cnt) and len(cur) > 1
+                if not okr or extra:
+                    bad.append((key, 0, 'multiplicities reported with pairs=True (%s form) differ from the true ones' % tag))
+                    break
         if key in ('as_QRPO', 'as_QRPO_ec'):
             try:
                 for k, x in enumerate(pts):
@@ -713,6 +765,27 @@ def theorem_files(tr):
         slot_stmts.append(('undef_slot_%s' % key, 'uslot_%s = true' % key, 'reflexivity.'))
     if slot_stmts:
         mk('slots', None, slot_stmts)
+    if 'pair_conjugates' in res:
+        txt = ('(* GENERATED by checks/c11.py from lcapy/root.py (sha256 %s).  Do not edit. *)\n'
+               'Require Import LT.FieldSec LT.PolyQ LT.RatfunFmt Gen.RatfunAttach.\nFrom Coq Require Import Lia.\nLocal Open Scope F_scope.\n'
+               '(* the three branches of pair_conjugates for a root (multiplicity o1) and a later conjugate (o2) *)\n'
+               'Definition pc_branch (o1 o2 : nat) : nat * nat * nat :=\n'
+               '  if (o1 =? o2)%%nat then pc_eq o1 o2 else if (o2 <? o1)%%nat then pc_gt o1 o2 else pc_lt o1 o2.\n'
+               'Theorem pair_conjugates_preserves_multiplicity : forall o1 o2 : nat,\n'
+               '  let \'(p, la, lb) := pc_branch o1 o2 in (p + la = o1 /\\ p + lb = o2)%%nat.\n'
+               'Proof. intros o1 o2. unfold pc_branch, pc_eq, pc_gt, pc_lt. destruct (Nat.eqb_spec o1 o2); [split; lia|].\n'
+               '  destruct (Nat.ltb_spec o2 o1); split; lia. Qed.\n'
+               'Section Obl.\nVariable K : fld.\nAdd Field KFo : (fth K).\n'
+               'Theorem pair_step_preserves_product : forall (x a b : K) (o1 o2 : nat),\n'
+               '  let \'(p, la, lb) := pc_branch o1 o2 in\n'
+               '  fpow (x - a) o1 * fpow (x - b) o2 = fpow (x * x - a * x - b * x + a * b) p * fpow (x - a) la * fpow (x - b) lb.\n'
+               'Proof. intros x a b o1 o2. pose proof (pair_conjugates_preserves_multiplicity o1 o2) as H.\n'
+               '  destruct (pc_branch o1 o2) as [[p la] lb]. destruct H as [H1 H2]. rewrite <- H1, <- H2, !fpow_add.\n'
+               '  replace (x * x - a * x - b * x + a * b) with ((x - a) * (x - b)) by ring. rewrite fpow_mul. ring. Qed.\n'
+               'End Obl.\nPrint Assumptions pair_conjugates_preserves_multiplicity.\nPrint Assumptions pair_step_preserves_product.\n') % res['pair_conjugates']['sha']
+        files['C11_pairconj.v'] = txt
+        meta['pair_conjugates_preserves_multiplicity'] = 'pairs + leftover(root) = o1 and pairs + leftover(root_c) = o2 in every branch of lcapy.root.pair_conjugates'
+        meta['pair_step_preserves_product'] = '(x-a)^o1 (x-b)^o2 = ((x-a)(x-b))^pairs (x-a)^la (x-b)^lb'
     if 'decomp' in res:
         txt = THM_HEAD.split('Lemma attach_')[0] % tr.sha
         txt += ('Hypothesis Eadd : forall a b, E (a + b) = E a * E b.\n'
@@ -792,6 +865,14 @@ def case_defs(c, r, pre, avail=None):
                 for k in range(len(pts)):
                     checks.append((key, k, 'veq (fmt_ZPK_cc E3 (att_ZPK_cc QcIF) %szp %szs1 %spp %sps1 %s %s %s %su%d %sx%d) %s' % (
                         pre, pre, pre, pre, B, A, d, pre, k, pre, k, qi(M[key]['vals'][k]))))
+    for key, src in (('poles_pairs', 'poles'), ('zeros_pairs', 'zeros'), ('N_roots_pairs', 'zeros'), ('D_roots_pairs', 'poles')):
+        if ok(key) and ok(src):
+            m_ = M[key]
+            orig_l = rlist(M[src]['roots'])
+            checks.append((key, 0, 'pairing_ok (K:=QcIF) %s %s %s' % (orig_l, pairlist(m_['pairs']), rlist(m_['singles']))))
+            # list form: every entry once
+            checks.append((key, 1, 'pairing_ok (K:=QcIF) %s %s %s' % (orig_l, pairlist([p_ + [1] for p_ in m_['pairs_list']]),
+                                                                   rlist([[p_, 1] for p_ in m_['singles_list']]))))
     for key, poly in (('poles', A), ('zeros', B)):
         if ok(key):
             # all roots of the generated polynomial are Gaussian rationals by construction: symbolic root
@@ -876,7 +957,8 @@ FILE_FP = {'C11_canonical.v': ['canonical delay'], 'C11_canonical_fc.v': ['canon
 FILE_METHOD = {'C11_canonical.v': ['canonical'], 'C11_canonical_fc.v': ['canonical'], 'C11_general.v': ['general'], 'C11_standard.v': ['standard', 'mixedfrac'],
                'C11_expandcanonical.v': ['expandcanonical'], 'C11_timeconst.v': ['timeconst'], 'C11_ZPK.v': ['ZPK', 'factored'],
                'C11_ZPK_cc.v': ['ZPK', 'factored'], 'C11_partfrac.v': ['partfrac', 'recippartfrac'], 'C11_partfrac_cc.v': ['partfrac'],
-               'C11_partfrac_cc_all.v': ['partfrac'], 'C11_init_N.v': ['N'], 'C11_decomp.v': ['decomposition'], 'C11_slots.v': ['as_QRPO']}
+               'C11_partfrac_cc_all.v': ['partfrac'], 'C11_init_N.v': ['N'], 'C11_decomp.v': ['decomposition'], 'C11_slots.v': ['as_QRPO'],
+               'C11_pairconj.v': ['ZPK', 'factored', 'poles(pairs=True)', 'zeros(pairs=True)', 'roots(pairs=True)']}
 
 
 MY_THEORY = ['PolyQ.v', 'QcI.v', 'RatfunFmt.v', 'RatfunCF.v', 'RatfunCorr.v']     # in dependency order
